@@ -22,7 +22,10 @@ def hook_commits():
 
 def main():
     checks = []
+    claimed = set(open(os.path.join(ROOT, "harness", "claimed.txt")).read().split())
     for pid in ALL:
+        if pid not in claimed:
+            continue
         info = registry.INFO.get(pid)
         if not info or info.get("disabled"):
             continue
